@@ -915,6 +915,9 @@ class Frame:
                 return r if isinstance(op, ast.Is) else not r
             isnone = other is None
             return isnone if isinstance(op, ast.Is) else not isnone
+        if isinstance(a, Opaque) and isinstance(b, Opaque) and a == b and isinstance(op, (ast.Eq, ast.NotEq, ast.Is, ast.IsNot)) and \
+                '(' not in a.tag.replace('elem(', '').replace('loop@(', ''):
+            return isinstance(op, (ast.Eq, ast.Is))  # the same symbolic value on both sides (no call in it that could differ)
         if isinstance(a, sym) or isinstance(b, sym):
             if isinstance(a, BV) and isinstance(b, int) and isinstance(op, (ast.Eq, ast.NotEq)) and b == 0:
                 t = self.truth_value(a)
@@ -980,6 +983,13 @@ class Frame:
                 return MList(r, self.ev.new_ident('list')) if isinstance(base, MList) else r
             return Opaque(f'{_tag(base)}[{"" if lo is None else _tag(lo)}:{"" if hi is None else _tag(hi)}]')
         idx = self.eval(n.slice)
+        if isinstance(base, dict) and isinstance(idx, Opaque) and 0 < len(base) <= 8 and \
+                all(isinstance(k, (str, bytes, int)) and not isinstance(k, bool) for k in base):
+            # a constant table indexed by an unknown key: case split over the keys (the same atoms as an if / elif chain)
+            for k in base:
+                if self.compare(ast.Eq(), idx, k, n):
+                    return base[k]
+            raise Raised('KeyError', n)
         if isinstance(base, MList) and base.unknown:
             if isinstance(idx, int) and not isinstance(idx, bool) and 0 <= idx < len(base):
                 return base[idx]
@@ -1038,7 +1048,16 @@ class Frame:
         return None
 
     def x_YieldFrom(self, n: ast.YieldFrom) -> Any:
-        v = self.eval(n.value)
+        if isinstance(n.value, ast.Call):
+            self._delegating = True  # a generator helper may be followed here: its yields are this function's yields
+            try:
+                v = self.eval(n.value)
+            finally:
+                self._delegating = False
+            if isinstance(v, _Delegated):
+                return None
+        else:
+            v = self.eval(n.value)
         self.ev.yields.append(('from', v))
         self.ev.events.append(('yield', ('from', v), n, tuple(self.ev.ctx)))
         return None
@@ -1170,11 +1189,23 @@ class Frame:
             fr.outer = target.frame
             return fr.run()
         if isinstance(target, BoundMethod) and may_inline:
-            return self._inline(target.fn, args, kwargs, target.obj)
+            if _is_generator(target.fn):
+                if getattr(self, '_delegating', False):
+                    self._delegating = False
+                    self._inline(target.fn, args, kwargs, target.obj)
+                    return _Delegated()
+            else:
+                return self._inline(target.fn, args, kwargs, target.obj)
         if isinstance(target, FuncRef) and may_inline:
             fi = self.ev.repo.mod(target.module).functions.get(target.qualname)
             if fi is not None:
-                return self._inline(fi, args, kwargs, None)
+                if _is_generator(fi):
+                    if getattr(self, '_delegating', False):
+                        self._delegating = False
+                        self._inline(fi, args, kwargs, None)
+                        return _Delegated()
+                else:
+                    return self._inline(fi, args, kwargs, None)
         if isinstance(target, ExtRef) and (target.module, target.name) == ('re', 'escape') and args and \
                 isinstance(args[0], str):
             import re as _re
@@ -1255,6 +1286,19 @@ class Frame:
 LIST_MUTATORS = {'append', 'extend', 'insert', 'pop', 'remove', 'clear', 'add', 'update', 'discard', 'sort', 'reverse'}
 PURE_CALLEES = {'len', 'str', 'bool', 'isinstance', 'tuple', 'list', 'set', 'frozenset', 'sorted', 'any', 'all', 'iter', 'enumerate', 'zip',
                 'min', 'max', 'sum', 'repr', 'type', 'id', 'os.fspath', "''.join", 'os.path.join', 're.escape'}
+
+
+class _Delegated:
+    """Result of `yield from helper(...)` when the generator helper was followed in place."""
+
+
+def _is_generator(fi: FuncInfo) -> bool:
+    c = fi.__dict__.get('_wc_isgen')
+    if c is None:
+        body = fi.node.body if isinstance(fi.node.body, list) else []
+        c = any(isinstance(x, (ast.Yield, ast.YieldFrom)) for x in _walk_stmts(body))
+        fi.__dict__['_wc_isgen'] = c
+    return c
 
 
 def _walk_stmts(body: list) -> Any:
